@@ -429,12 +429,19 @@ func (e *Exec) valueEq(a, b Value) *Term {
 			r = e.ctx.And(r, e.valueEq(x.E[i], y.E[i]))
 		}
 		return r
-	case *PtrV:
-		y, ok := b.(*PtrV)
+	case *PtrV, *PtrChoice:
+		xa, _ := e.ptrAlts(a)
+		ya, ok := e.ptrAlts(b)
 		if !ok {
 			return e.ctx.False
 		}
-		return e.ptrEq(x, y)
+		r := e.ctx.False
+		for _, p := range xa {
+			for _, q := range ya {
+				r = e.ctx.Or(r, e.ctx.And(e.ctx.And(p.G, q.G), e.ptrEq(p.P, q.P)))
+			}
+		}
+		return r
 	case *IfaceV:
 		y, ok := b.(*IfaceV)
 		if !ok {
